@@ -11,6 +11,13 @@
 (declare-const lit.true Str)
 (declare-const lit.empty Str)
 
+; codec of message.Mesg{Type, Root, Leaf} (declared here so that the views can decode stored messages;
+; the engine adds the ground instances unjson.i(tojson(a0,a1,a2)) = ai for every message it encodes)
+(declare-fun tojson.message.Mesg (Str Str Str) Bytes)
+(declare-fun unjson.message.Mesg.0 (Bytes) Str)
+(declare-fun unjson.message.Mesg.1 (Bytes) Str)
+(declare-fun unjson.message.Mesg.2 (Bytes) Str)
+
 ; ---- what a client sees of a promise
 (declare-datatypes ((PView 0)) (((mk.pview (pv.id Str) (pv.state Int) (pv.param_headers SMap) (pv.param_data Bytes)
   (pv.value_headers SMap) (pv.value_data Bytes) (pv.timeout Int) (pv.ikc OptStr) (pv.iku OptStr) (pv.tags SMap)
@@ -68,3 +75,73 @@
         (set.promises.idempotency_key_for_complete (set.promises.completed_on e (isome now)) ik)
         (bsome vd)) (bsome (tojson vh))) (isome state))
       e)))
+
+; ================================================================= locks (C09)
+(declare-datatypes ((LView 0)) (((mk.lview (lv.resource_id Str) (lv.execution_id Str) (lv.process_id Str) (lv.ttl Int) (lv.expires_at Int)))))
+(define-fun lview.row ((r Row.locks)) LView
+  (mk.lview (val (locks.resource_id r)) (val (locks.execution_id r)) (val (locks.process_id r)) (ival (locks.ttl r)) (ival (locks.expires_at r))))
+(define-fun lock.row ((rid Str) (eid Str) (pid Str) (ttl Int) (exp Int)) Row.locks
+  (set.locks.present (set.locks.resource_id (set.locks.execution_id (set.locks.process_id (set.locks.ttl
+    (set.locks.expires_at absent.locks (isome exp)) (isome ttl)) (some pid)) (some eid)) (some rid)) true))
+; acquire: granted iff free or held by the same execution; the lease then runs until T + ttl.
+; A lock held by another execution whose lease has NOT expired must be refused; after expiry and
+; before the sweep removed it the property leaves the outcome open (the server refuses).
+(define-fun seq.acquire ((pre Row.locks) (post Row.locks) (T Int) (status Int) (rid Str) (eid Str) (pid Str) (ttl Int)) Bool
+  (ite (or (not (locks.present pre)) (lock.heldby pre eid))
+    (and (= status 20100) (= post (lock.row rid eid pid ttl (+ T ttl))))
+    (and (= status 40304) (= post pre))))
+(define-fun seq.release ((pre Row.locks) (post Row.locks) (status Int) (eid Str)) Bool
+  (ite (lock.heldby pre eid) (and (= status 20400) (= post absent.locks)) (and (= status 40402) (= post pre))))
+
+; ================================================================= tasks (C07)
+(declare-datatypes ((TView 0)) (((mk.tview (tv.id Str) (tv.process_id OptStr) (tv.state Int) (tv.root Str) (tv.recv Bytes) (tv.mesg_type Str) (tv.mesg_root Str) (tv.mesg_leaf Str)
+  (tv.timeout Int) (tv.counter Int) (tv.attempt Int) (tv.ttl Int) (tv.expires_at Int) (tv.created_on OptInt) (tv.completed_on OptInt)))))
+(define-fun tview.row ((r Row.tasks)) TView
+  (mk.tview (val (tasks.id r)) (tasks.process_id r) (ival (tasks.state r)) (val (tasks.root_promise_id r)) (data (tasks.recv r)) (unjson.message.Mesg.0 (data (tasks.mesg r))) (unjson.message.Mesg.1 (data (tasks.mesg r))) (unjson.message.Mesg.2 (data (tasks.mesg r)))
+    (ival (tasks.timeout r)) (ival (tasks.counter r)) (ival (tasks.attempt r)) (ival (tasks.ttl r)) (ival (tasks.expires_at r))
+    (tasks.created_on r) (tasks.completed_on r)))
+(define-fun t.state ((r Row.tasks) (s Int)) Bool (and (tasks.present r) (= (tasks.state r) (isome s))))
+(define-fun t.claimable ((r Row.tasks) (counter Int)) Bool
+  (and (tasks.present r) (or (= (tasks.state r) (isome 1)) (= (tasks.state r) (isome 2))) (= (tasks.counter r) (isome counter))))
+; claim: succeeds only for an unclaimed, unfinished task with the current counter; then the caller holds it until T + ttl
+(define-fun seq.claim ((pre Row.tasks) (post Row.tasks) (T Int) (status Int) (counter Int) (pid Str) (ttl Int)) Bool
+  (ite (t.claimable pre counter)
+    ; (the retry counter "attempt" is bookkeeping and left unconstrained)
+    (and (= status 20100)
+         (= (set.tasks.attempt post (isome 0))
+            (set.tasks.attempt (set.tasks.process_id (set.tasks.state (set.tasks.ttl (set.tasks.expires_at pre (isome (+ T ttl))) (isome ttl)) (isome 4)) (some pid)) (isome 0))))
+    (and (= post pre)
+         (ite (not (tasks.present pre)) (= status 40403)
+           (and (or (= status 40305) (= status 40306) (= status 40307))
+                (=> (= status 40305) (t.state pre 4))
+                (=> (= status 40306) (t.finished pre))
+                (=> (= status 40307) (not (= (tasks.counter pre) (isome counter)))))))))
+; complete: only the holder's counter completes a claimed task; a finished task is merely acknowledged
+(define-fun seq.completetask ((pre Row.tasks) (post Row.tasks) (T Int) (status Int) (counter Int)) Bool
+  (ite (and (t.state pre 4) (= (tasks.counter pre) (isome counter)))
+    (and (= status 20100)
+         (= post (set.tasks.process_id (set.tasks.state (set.tasks.attempt (set.tasks.ttl (set.tasks.expires_at
+                   (set.tasks.completed_on pre (isome T)) (isome 0)) (isome 0)) (isome 0)) (isome 8)) none)))
+    (and (= post pre)
+         (ite (not (tasks.present pre)) (= status 40403)
+           (ite (t.finished pre) (= status 20000)
+             (ite (t.state pre 4) (= status 40307) (= status 40308)))))))
+
+; ================================================================= schedules (C10)
+(declare-datatypes ((SView 0)) (((mk.sview (sv.id Str) (sv.desc Str) (sv.cron Str) (sv.tags SMap) (sv.promise_id Str) (sv.promise_timeout Int)
+  (sv.pph SMap) (sv.ppd Bytes) (sv.ptags SMap) (sv.last OptInt) (sv.next Int) (sv.ik OptStr) (sv.created_on Int)))))
+(define-fun sview.row ((r Row.schedules)) SView
+  (mk.sview (val (schedules.id r)) (val (schedules.description r)) (val (schedules.cron r)) (hdrs (schedules.tags r)) (val (schedules.promise_id r))
+    (ival (schedules.promise_timeout r)) (hdrs (schedules.promise_param_headers r)) (data (schedules.promise_param_data r))
+    (hdrs (schedules.promise_tags r)) (schedules.last_run_time r) (ival (schedules.next_run_time r)) (schedules.idempotency_key r)
+    (ival (schedules.created_on r))))
+; next occurrence of a cron expression strictly after t (cron library, assumed)
+(declare-fun cronnext (Str Int) Int)
+(define-fun seq.createschedule.status.exists ((pre Row.schedules) (ik OptStr)) Int
+  (ite (key.match (schedules.idempotency_key pre) ik) 20000 40901))
+
+; ================================================================= callbacks (C05)
+(declare-datatypes ((CView 0)) (((mk.cview (cv.id Str) (cv.promise_id Str) (cv.root Str) (cv.recv Bytes) (cv.mesg_type Str) (cv.mesg_root Str) (cv.mesg_leaf Str) (cv.timeout Int) (cv.created_on Int)))))
+(define-fun cview.row ((r Row.callbacks)) CView
+  (mk.cview (val (callbacks.id r)) (val (callbacks.promise_id r)) (val (callbacks.root_promise_id r)) (data (callbacks.recv r)) (unjson.message.Mesg.0 (data (callbacks.mesg r))) (unjson.message.Mesg.1 (data (callbacks.mesg r))) (unjson.message.Mesg.2 (data (callbacks.mesg r)))
+    (ival (callbacks.timeout r)) (ival (callbacks.created_on r))))
